@@ -3,13 +3,14 @@ GR_AT = "crates/jxl-grid/src/alloc_tracker.rs"; GR_ATM = "kani/jxl-grid/alloc_tr
 GR_MS = "crates/jxl-grid/src/mutable_subgrid.rs"; GR_MSM = "kani/jxl-grid/mutable_subgrid.rs"
 GR_SS = "crates/jxl-grid/src/shared_subgrid.rs"; GR_SSM = "kani/jxl-grid/shared_subgrid.rs"
 GR_LIB = "crates/jxl-grid/src/lib.rs"; GR_LIBM = "kani/jxl-grid/lib.rs"
-CANARIES["jxl-grid"] = dict(anchor=GR_AT, module=GR_ATM, harness="canary", kind="complete", fns=[], timeout=60)
 
 _LEFT = "self.inner.bytes_left.load(Ordering::Relaxed)"
 _alloc_attrs = [
     dict(file=GR_AT, before="pub fn alloc<T>(&self, count: usize) -> Result<AllocHandle, crate::OutOfMemory> {", attrs=[
         "kani::requires(count.checked_mul(std::mem::size_of::<T>()).is_some())",
-        "kani::modifies(self.inner.bytes_left.as_ptr())",
+        # Arc::clone(&self.inner) bumps the strong count, which lives 16 bytes before the payload (repr(C) ArcInner);
+        # the modifies clause is checked, so a wrong layout guess fails the proof instead of hiding a write
+        "kani::modifies(self.inner.bytes_left.as_ptr(), (Arc::as_ptr(&self.inner) as *const usize).wrapping_sub(2))",
         "kani::ensures(|r: &Result<AllocHandle, crate::OutOfMemory>| { let bytes = count * std::mem::size_of::<T>(); "
         "let was = old(%s); let now = %s; match r { "
         "Ok(h) => was >= bytes && now == was - bytes && h.bytes == bytes && Arc::ptr_eq(&h.inner, &self.inner), "
@@ -28,6 +29,8 @@ _alloc_attrs = [
         "kani::modifies(self.inner.bytes_left.as_ptr(), &self.bytes)",
         "kani::ensures(|_r| %s == old(%s) + old(self.bytes) && self.bytes == 0)" % (_LEFT, _LEFT)]),
 ]
+# the canary lives in the alloc_tracker module, whose proof_for_contract harnesses need the attributes
+CANARIES["jxl-grid"] = dict(anchor=GR_AT, module=GR_ATM, harness="canary", kind="complete", fns=[], timeout=60, attrs=_alloc_attrs)
 _ALLOC_C = ("requires count*size_of::<T>() representable; ensures Ok(h) => bytes_left' == bytes_left - bytes && h.bytes == bytes && h belongs to self; "
             "Err(e) => bytes_left < bytes && bytes_left' == bytes_left && e.bytes == bytes; G' == G; no panic "
             "(kani::requires/ensures/modifies on the real fn, proof_for_contract)")
@@ -47,4 +50,63 @@ K("gr.tracker_sequence", ["C13", "C01"], "jxl-grid", GR_AT, GR_ATM, "sequence_co
   "bounded:sequence length <= 4 operations (complete over budget, sizes, element types u8/f32/16-byte, two clones of the tracker)",
   ["AllocTracker::alloc", "AllocHandle::drop", "AllocTracker::shrink_limit", "AllocTracker::expand_limit", "AllocTracker::clone"],
   "after every operation bytes_left + sum(outstanding handle.bytes) == limit and outstanding <= limit; exhaustion is Err and takes nothing; "
-  "after dropping every handle bytes_left == initial + expands - successful shrinks and shrink_limit(all) succeeds", attrs=_alloc_attrs)
+  "after dropping every handle bytes_left == initial + expands - successful shrinks and shrink_limit(all) succeeds",
+  tier="thorough", timeout=1200, attrs=_alloc_attrs)
+K("gr.tracker_sequence3", ["C13", "C01"], "jxl-grid", GR_AT, GR_ATM, "sequence3_contract",
+  "bounded:sequence length <= 3 operations (complete over budget, sizes, element types u8/f32/16-byte)",
+  ["AllocTracker::alloc", "AllocHandle::drop", "AllocTracker::shrink_limit", "AllocTracker::expand_limit", "AllocTracker::clone"],
+  "same contract as gr.tracker_sequence, 3 operations", attrs=_alloc_attrs)
+
+# ---- MutableSubgrid (C02) ----
+_SG_BOUND = ("bounded:backing buffer <= 48 elements; complete over offsets, widths, heights, strides (all of usize for one-row grids), "
+             "ranges and element values within it; every operation starts from an arbitrary well-formed grid, so contracts compose over nestings")
+_IN_ALLOC = " [harness precondition: pointers formed for EMPTY edge parts stay <= one-past-the-end, see DESIGN 2.2 / obs_ptr_add_leaves_allocation]"
+_MS_ACC = ["MutableSubgrid::try_get_ref", "MutableSubgrid::get_ref", "MutableSubgrid::get", "MutableSubgrid::try_get_row",
+           "MutableSubgrid::try_get_mut", "MutableSubgrid::try_get_row_mut", "MutableSubgrid::get_ptr_unchecked"]
+_ACC_C = ("; the result's accessors (try_get_ref/get/try_get_row/try_get_mut/try_get_row_mut) at a symbolic (x, y): Some iff inside, address == base + off + y*stride + x "
+          "< len, CBMC pointer checks on the dereference, a write changes exactly that buffer element (observed at a symbolic index)")
+def _ms(id, harness, fns, contract, kind=None, **kw):
+    K("gr.ms." + id, ["C02"], "jxl-grid", GR_MS, GR_MSM, harness, kind or _SG_BOUND, fns, contract, **kw)
+for _t in ["i16", "f32"]:
+    _ms("from_buf_" + _t, "ms_from_buf_" + _t, ["MutableSubgrid::from_buf", "MutableSubgrid::new", "MutableSubgrid::empty"] + _MS_ACC,
+        "requires width <= stride, (w == 0 || h == 0) ? len == 0 : stride*(h-1)+w <= len; ensures geometry (0, w, h, stride), split_base None" + _ACC_C)
+    _ms("subgrid_" + _t, "ms_subgrid_" + _t, ["MutableSubgrid::subgrid"] + _MS_ACC,
+        "requires left <= right <= width, top <= bottom <= height for all 9 Bound combinations per axis; ensures child (x, y) == parent (left+x, top+y), "
+        "child dims (right-left, bottom-top), same stride" + _ACC_C + _IN_ALLOC)
+    for _d, _D in [("h", "horizontal"), ("v", "vertical")]:
+        _ms("split_%s_%s" % (_d, _t), "ms_split_%s_%s" % (_d, _t), ["MutableSubgrid::split_" + _D] + _MS_ACC,
+            "requires at <= width/height; ensures the two parts have the documented geometry, lie inside the parent, are disjoint and cover it "
+            "(symbolic points), share the split base" + _ACC_C + _IN_ALLOC)
+        _ms("split_%s_in_place_%s" % (_d, _t), "ms_split_%s_in_place_%s" % (_d, _t), ["MutableSubgrid::split_%s_in_place" % _D] + _MS_ACC,
+            "same contract; self becomes the first part" + _ACC_C + _IN_ALLOC)
+        _ms("merge_%s_%s" % (_d, _t), "ms_merge_%s_%s" % (_d, _t), ["MutableSubgrid::merge_%s_in_place" % _D, "MutableSubgrid::split_%s_in_place" % _D] + _MS_ACC,
+            "merge(split_in_place(g, at)) == g for every at (merge never rejects a genuine split)" + _ACC_C + _IN_ALLOC)
+    _ms("groups_" + _t, "ms_groups_" + _t, ["MutableSubgrid::into_groups", "MutableSubgrid::into_groups_with_fixed_count"] + _MS_ACC,
+        "requires gw, gh >= 1; ensures ceil(w/gw)*ceil(h/gh) groups row-first; group (gx, gy) element (x, y) == parent (gx*gw+x, gy*gh+y), "
+        "edge groups truncated; groups pairwise disjoint and cover the parent" + _ACC_C + _IN_ALLOC,
+        kind=_SG_BOUND + "; <= 12 groups")
+    _ms("groups_fixed_" + _t, "ms_groups_fixed_" + _t, ["MutableSubgrid::into_groups_with_fixed_count"] + _MS_ACC,
+        "any num_cols x num_rows: exactly that many groups; in-range groups as into_groups, out-of-range groups empty; pairwise disjoint; inside the parent"
+        + _ACC_C + _IN_ALLOC, kind=_SG_BOUND + "; <= 12 groups")
+    _ms("swap_" + _t, "ms_swap_" + _t, ["MutableSubgrid::swap", "MutableSubgrid::get_ptr"],
+        "requires both coordinates inside; ensures exactly the two mapped buffer elements are exchanged (same cell: no-op), nothing else changes")
+    _ms("reborrow_" + _t, "ms_reborrow_" + _t, ["MutableSubgrid::borrow_mut", "MutableSubgrid::as_shared", "SharedSubgrid::new"] + _MS_ACC,
+        "borrow_mut / as_shared view exactly the same elements (geometry preserved)" + _ACC_C)
+_GUARD = "bounded:backing buffer <= 48 elements; complete over geometry and arguments (8-bit) -- guard proof: the real assertion is expected to fail, the tagged postcondition must not"
+_ms("from_buf_rejects", "ms_from_buf_rejects", ["MutableSubgrid::from_buf"],
+    "from_buf returns only if width <= stride and the area lies inside the buffer", kind=_GUARD)
+_ms("subgrid_rejects", "ms_subgrid_rejects", ["MutableSubgrid::subgrid"], "subgrid returns only for ranges inside the grid", kind=_GUARD)
+_ms("split_rejects", "ms_split_rejects", ["MutableSubgrid::split_horizontal", "MutableSubgrid::split_horizontal_in_place",
+    "MutableSubgrid::split_vertical", "MutableSubgrid::split_vertical_in_place"], "split_* return only for at <= width/height", kind=_GUARD)
+_ms("groups_rejects", "ms_groups_rejects", ["MutableSubgrid::into_groups"], "into_groups never returns for a zero group size (no division by zero)", kind=_GUARD)
+_ms("swap_rejects", "ms_swap_rejects", ["MutableSubgrid::swap"], "swap returns only for coordinates inside the grid", kind=_GUARD)
+_ms("merge_h_guard", "ms_merge_h_guard", ["MutableSubgrid::merge_horizontal_in_place"] + _MS_ACC,
+    "for ANY two well-formed grids and split bases: merge returns only if same stride, same height, right.ptr == self(width, 0), widths fit the stride; "
+    "then the merged grid is exactly the union of both" + _ACC_C, kind=_GUARD)
+_ms("merge_v_guard", "ms_merge_v_guard", ["MutableSubgrid::merge_vertical_in_place"] + _MS_ACC,
+    "for ANY two well-formed grids: merge returns only if same stride, same width, bottom.ptr == self(0, height); then the merged grid is exactly the union" + _ACC_C,
+    kind=_GUARD)
+_ms("into_i32", "ms_into_i32", ["MutableSubgrid::into_i32"] + _MS_ACC, "same geometry, same elements reinterpreted bit for bit" + _ACC_C)
+_ms("as_vectored", "ms_as_vectored", ["MutableSubgrid::as_vectored", "SimdVector::available (__m128)"] + _MS_ACC,
+    "Some iff origin 16-byte aligned and width, stride multiples of 4; vector (x, y) is f32 elements (4x..4x+3, y): every lane inside the buffer; "
+    "reads/writes of __m128 elements under CBMC pointer checks (plain pointer cast, no intrinsics)")
